@@ -175,6 +175,7 @@ SID = z3.Function("SID", z3.StringSort(), z3.IntSort())        # interned string
 STR_OF = z3.Function("STR_OF", z3.IntSort(), z3.StringSort())   # are beyond z3's sequence solver); STR_OF(SID(s)) == s makes SID injective
 
 
+RSTRIPCH = z3.Function("RSTRIPCH", z3.StringSort(), z3.StringSort(), z3.StringSort())      # str.rstrip(chars)
 PATH_JOIN = z3.Function("PATH_JOIN", z3.StringSort(), z3.StringSort(), z3.StringSort())     # pathlib.PurePath.__truediv__ on string forms
 
 
